@@ -183,6 +183,21 @@ def work(item):
                 if o != st:
                     viol('conformance', w[:40] + '...(%d)' % len(w), '', 'observation of a length-%d periodic string differs from the model' % len(w), 'very-long')
                     break
+                # the verdict of is_valid() and the generator at this length (length caps, block-wise shortcuts in validate())
+                conf += 2
+                if S['accept'](st) != _iv(S['is_valid'], w):
+                    viol('conformance', w[:40] + '...(%d)' % len(w), '', 'model says %s, is_valid() of the length-%d string says %s' % (
+                        S['accept'](st), len(w), _iv(S['is_valid'], w)), 'very-long-verdict')
+                    break
+                try:
+                    full = w + S['calc'](w)
+                except Exception as e:  # noqa: B902
+                    full = None
+                    viol('generator-fails', w[:40] + '...(%d)' % len(w), '', 'the generator raises %s for a length-%d payload' % (type(e).__name__, len(w)), 'very-long-generator')
+                    break
+                if full is not None and not _iv(S['is_valid'], full):
+                    viol('generated-rejected', w[:40] + '...(%d)' % len(w), '', 'payload of length %d completed with the generated check character(s) is rejected' % len(w), 'very-long-generator')
+                    break
     states = nstates
     transitions = len(model.delta)
     replayed = 0
